@@ -43,6 +43,7 @@ type Solver struct {
 	Log     io.Writer
 	seq     int
 	dead    bool
+	defaultTimeout int
 	LastErr string
 }
 
@@ -73,7 +74,7 @@ func NewSolver(name string, timeoutMs int) (*Solver, error) {
 	if err := cmd.Start(); err != nil {
 		return nil, err
 	}
-	s := &Solver{Name: name, cmd: cmd, in: in, out: bufio.NewReaderSize(outp, 1<<16), defined: map[*Term]int{}, byLevel: [][]*Term{nil}}
+	s := &Solver{defaultTimeout: timeoutMs, Name: name, cmd: cmd, in: in, out: bufio.NewReaderSize(outp, 1<<16), defined: map[*Term]int{}, byLevel: [][]*Term{nil}}
 	s.raw("(set-option :produce-models true)\n")
 	if name == "cvc5" {
 		s.raw("(set-logic ALL)\n")
@@ -277,27 +278,39 @@ func (s *Solver) classify(lines []string) Result {
 
 // Check decides satisfiability of the current assertion stack, optionally under extra assumptions.
 func (s *Solver) Check(assuming ...*Term) Result {
+	r, _ := s.CheckModel(nil, 0, assuming...)
+	return r
+}
+
+// CheckModel is Check that, on Sat, also fetches the values of vars (before the temporary scope
+// holding the assumptions is popped). timeoutMs > 0 overrides the solver's per-query timeout.
+func (s *Solver) CheckModel(vars []*Term, timeoutMs int, assuming ...*Term) (Result, map[string]uint64) {
 	if s.dead {
 		s.Stats.Unknown++
-		return Unknown
+		return Unknown, nil
 	}
-	if len(assuming) == 0 {
-		s.raw("(check-sat)\n")
-	} else {
-		refs := make([]string, 0, len(assuming))
-		for _, a := range assuming {
-			if a.Op == OpConst {
-				if a.Val == 0 {
-					s.Stats.Unsat++
-					return Unsat
-				}
-				continue
+	var refs []string
+	for _, a := range assuming {
+		if a.Op == OpConst {
+			if a.Val == 0 {
+				s.Stats.Unsat++
+				return Unsat, nil
 			}
-			// check-sat-assuming wants literals: name the term
-			refs = append(refs, s.ref(a))
+			continue
 		}
-		s.raw("(check-sat-assuming (" + strings.Join(refs, " ") + "))\n")
+		refs = append(refs, s.ref(a)) // named at the current level, outside the temporary scope
 	}
+	if timeoutMs > 0 && s.Name != "cvc5" {
+		s.raw("(set-option :timeout " + strconv.Itoa(timeoutMs) + ")\n")
+	}
+	scoped := len(refs) > 0
+	if scoped {
+		s.raw("(push 1)\n")
+		for _, r := range refs {
+			s.raw("(assert " + r + ")\n")
+		}
+	}
+	s.raw("(check-sat)\n")
 	t0 := time.Now()
 	lines := s.sync()
 	d := time.Since(t0)
@@ -306,15 +319,32 @@ func (s *Solver) Check(assuming ...*Term) Result {
 		s.Stats.MaxQuery = d
 	}
 	r := s.classify(lines)
+	var model map[string]uint64
 	switch r {
 	case Sat:
 		s.Stats.Sat++
+		if vars != nil {
+			m, err := s.Values(vars)
+			if err != nil {
+				r = Unknown
+				s.Stats.Sat--
+				s.Stats.Unknown++
+			} else {
+				model = m
+			}
+		}
 	case Unsat:
 		s.Stats.Unsat++
 	default:
 		s.Stats.Unknown++
 	}
-	return r
+	if scoped {
+		s.raw("(pop 1)\n")
+	}
+	if timeoutMs > 0 && s.Name != "cvc5" {
+		s.raw("(set-option :timeout " + strconv.Itoa(s.defaultTimeout) + ")\n")
+	}
+	return r, model
 }
 
 // Values fetches the model values of vars after a Sat answer.
